@@ -18,7 +18,11 @@ theorem setFloor_prog : setFloorProg =
 /-- local invariant of one thread against the shared floor `F` and the CAS history.
     Next: r0 = raw, r1 = floor.  SetFloor: r0 = floor (parameter), r1 = current, r2 = probe. -/
 structure TInv (F : Nat) (hist : List Nat) (t : Thread) : Prop where
-  casd : ∀ v, t.casd = some v → v ∈ hist ∧ (∀ w ∈ t.histAtCas, w < v) ∧ (∀ f ∈ t.acksAtCas, f < v)
+  casd : ∀ v, t.casd = some v → v ∈ hist ∧ (∀ w ∈ t.histAtCas, w < v) ∧ (∀ f ∈ t.acksAtCas, f < v) ∧
+    (∀ w ∈ t.histAtStart, w < v) ∧ (∀ f ∈ t.acksAtStart, f < v)
+  startHist : ∀ x ∈ t.histAtStart, x ∈ hist
+  startRets : ∀ x ∈ t.retsAtStart, x ∈ t.histAtStart
+  startAcks : ∀ f ∈ t.acksAtStart, f ≤ F
   halted : t.ret ≠ none → t.pc = haltPC
   nx4 : t.kind = .next → t.pc = 4 → t.r1 < t.r0
   nx5 : t.kind = .next → t.pc = 5 → t.casd = some t.r0
@@ -34,6 +38,9 @@ structure TInv (F : Nat) (hist : List Nat) (t : Thread) : Prop where
 theorem TInv.mono {F F' : Nat} {hist hist' : List Nat} {t : Thread} (h : TInv F hist t)
     (hF : F ≤ F') (hh : ∀ x ∈ hist, x ∈ hist') : TInv F' hist' t :=
   { casd := fun v hv => ⟨hh v (h.casd v hv).1, (h.casd v hv).2⟩
+    startHist := fun x hx => hh x (h.startHist x hx)
+    startRets := h.startRets
+    startAcks := fun f hf => Nat.le_trans (h.startAcks f hf) hF
     halted := h.halted, nx4 := h.nx4, nx5 := h.nx5, nxr := h.nxr
     sfCur := fun a b => Nat.le_trans (h.sfCur a b) hF
     sf2 := h.sf2, sfProbe := h.sfProbe, sf8 := h.sf8, sf9 := h.sf9
@@ -44,6 +51,9 @@ structure Inv (s : GState) : Prop where
   sorted : s.hist.Pairwise (· > ·)
   histLe : ∀ x ∈ s.hist, x ≤ s.floor
   acksLe : ∀ f ∈ s.acks, f ≤ s.floor
+  retsIn : ∀ v ∈ s.rets, v ∈ s.hist
+  retRec : ∀ k t v, s.threads k = some t → t.ret = some (.id v) → v ∈ s.rets
+  ackRec : ∀ k t, s.threads k = some t → t.kind = .setFloor → t.ret = some .ok → t.r0 ∈ s.acks
   thr : ∀ k t, s.threads k = some t → TInv s.floor s.hist t
   distinct : ∀ i j ti tj v, i ≠ j → s.threads i = some ti → s.threads j = some tj →
     ti.casd = some v → tj.casd = some v → False
@@ -52,6 +62,9 @@ theorem inv_init : Inv init :=
   { sorted := List.Pairwise.nil
     histLe := fun _ h => by cases h
     acksLe := fun _ h => by cases h
+    retsIn := fun _ h => by cases h
+    retRec := fun _ _ _ h => by simp [init] at h
+    ackRec := fun _ _ h => by simp [init] at h
     thr := fun _ _ h => by simp [init] at h
     distinct := fun _ _ _ _ _ _ h => by simp [init] at h }
 
@@ -59,14 +72,30 @@ theorem upd_same (f : Nat → Option Thread) (k : Nat) (t : Thread) : upd f k t 
 theorem upd_other (f : Nat → Option Thread) (k : Nat) (t : Thread) {i : Nat} (h : i ≠ k) : upd f k t i = f i := by
   simp [upd, h]
 
-/-- a step that leaves floor / hist alone and keeps the thread's `casd` -/
+/-- a step that leaves floor / hist alone and keeps the thread's `casd`; acks / rets may grow -/
 theorem inv_local {s : GState} (hi : Inv s) {k : Nat} {t t' : Thread} (hk : s.threads k = some t)
-    (hc : t'.casd = t.casd) (acks' : List Nat) (ha : ∀ f ∈ acks', f ≤ s.floor)
+    (hc : t'.casd = t.casd) (acks' rets' : List Nat) (ha : ∀ f ∈ acks', f ≤ s.floor)
+    (hr : ∀ v ∈ rets', v ∈ s.hist) (hrm : ∀ v ∈ s.rets, v ∈ rets') (ham : ∀ f ∈ s.acks, f ∈ acks')
+    (hrr : ∀ v, t'.ret = some (.id v) → v ∈ rets')
+    (har : t'.kind = .setFloor → t'.ret = some .ok → t'.r0 ∈ acks')
     (ht : TInv s.floor s.hist t') :
-    Inv { s with acks := acks', threads := upd s.threads k t' } :=
+    Inv { s with acks := acks', rets := rets', threads := upd s.threads k t' } :=
   { sorted := hi.sorted
     histLe := hi.histLe
     acksLe := ha
+    retsIn := hr
+    retRec := by
+      intro i ti v h hv
+      dsimp only at h ⊢
+      by_cases hik : i = k
+      · subst hik; simp only [upd_same, Option.some.injEq] at h; subst h; exact hrr v hv
+      · rw [upd_other _ _ _ hik] at h; exact hrm v (hi.retRec i ti v h hv)
+    ackRec := by
+      intro i ti h hkind hv
+      dsimp only at h ⊢
+      by_cases hik : i = k
+      · subst hik; simp only [upd_same, Option.some.injEq] at h; subst h; exact har hkind hv
+      · rw [upd_other _ _ _ hik] at h; exact ham _ (hi.ackRec i ti h hkind hv)
     thr := by
       intro i ti h
       dsimp only at h ⊢
@@ -91,18 +120,31 @@ theorem inv_local {s : GState} (hi : Inv s) {k : Nat} {t t' : Thread} (hk : s.th
 
 /-- a successful CAS that writes `v > floor` -/
 theorem inv_cas {s : GState} (hi : Inv s) {k : Nat} {t' : Thread} {v : Nat} (hv : s.floor < v)
+    (hnr : t'.ret = none)
     (ht : TInv v (v :: s.hist) { t' with casd := some v, histAtCas := s.hist, acksAtCas := s.acks }) :
     Inv (commit s k v t' (.cas v)) := by
   have hlt : ∀ x ∈ s.hist, x < v := fun x hx => Nat.lt_of_le_of_lt (hi.histLe x hx) hv
   refine
   { sorted := List.pairwise_cons.mpr ⟨fun x hx => hlt x hx, hi.sorted⟩
-    histLe := ?_, acksLe := ?_, thr := ?_, distinct := ?_ }
+    histLe := ?_, acksLe := ?_, retsIn := ?_, retRec := ?_, ackRec := ?_, thr := ?_, distinct := ?_ }
   · intro x hx
     rcases List.mem_cons.mp hx with h | h
     · subst h; exact Nat.le_refl _
     · exact Nat.le_of_lt (hlt x h)
   · intro f hf
     exact Nat.le_trans (hi.acksLe f hf) (Nat.le_of_lt hv)
+  · intro x hx
+    exact List.mem_cons_of_mem _ (hi.retsIn x hx)
+  · intro i ti x h hx
+    simp only [commit] at h ⊢
+    by_cases hik : i = k
+    · subst hik; simp only [upd_same, Option.some.injEq] at h; subst h; simp [hnr] at hx
+    · rw [upd_other _ _ _ hik] at h; exact hi.retRec i ti x h hx
+  · intro i ti h hkind hx
+    simp only [commit] at h ⊢
+    by_cases hik : i = k
+    · subst hik; simp only [upd_same, Option.some.injEq] at h; subst h; simp [hnr] at hx
+    · rw [upd_other _ _ _ hik] at h; exact hi.ackRec i ti h hkind hx
   · intro i ti h
     simp only [commit] at h
     by_cases hik : i = k
@@ -127,10 +169,24 @@ theorem inv_cas {s : GState} (hi : Inv s) {k : Nat} {t' : Thread} {v : Nat} (hv 
         exact hi.distinct i j ti tj w hij h1 h2 c1 c2
 
 theorem inv_spawn {s : GState} (hi : Inv s) (k : Nat) (kind : Kind) (arg : Nat) (h : s.threads k = none) :
-    Inv { s with threads := upd s.threads k (spawnThread kind arg) } := by
-  have hT : TInv s.floor s.hist (spawnThread kind arg) := by
-    cases kind <;> constructor <;> simp [spawnThread]
-  refine { sorted := hi.sorted, histLe := hi.histLe, acksLe := hi.acksLe, thr := ?_, distinct := ?_ }
+    Inv { s with threads := upd s.threads k (spawnThread kind arg s) } := by
+  have hT : TInv s.floor s.hist (spawnThread kind arg s) := by
+    cases kind <;> constructor <;> simp [spawnThread] <;>
+      first | exact hi.retsIn | exact hi.acksLe
+  have hnr : (spawnThread kind arg s).ret = none := by cases kind <;> rfl
+  have hnc : (spawnThread kind arg s).casd = none := by cases kind <;> rfl
+  refine { sorted := hi.sorted, histLe := hi.histLe, acksLe := hi.acksLe, retsIn := hi.retsIn,
+           retRec := ?_, ackRec := ?_, thr := ?_, distinct := ?_ }
+  · intro i ti x hh hx
+    dsimp only at hh ⊢
+    by_cases hik : i = k
+    · subst hik; simp only [upd_same, Option.some.injEq] at hh; subst hh; simp [hnr] at hx
+    · rw [upd_other _ _ _ hik] at hh; exact hi.retRec i ti x hh hx
+  · intro i ti hh hkind hx
+    dsimp only at hh ⊢
+    by_cases hik : i = k
+    · subst hik; simp only [upd_same, Option.some.injEq] at hh; subst hh; simp [hnr] at hx
+    · rw [upd_other _ _ _ hik] at hh; exact hi.ackRec i ti hh hkind hx
   · intro i ti hh
     dsimp only at hh ⊢
     by_cases hik : i = k
@@ -140,11 +196,11 @@ theorem inv_spawn {s : GState} (hi : Inv s) (k : Nat) (kind : Kind) (arg : Nat) 
     dsimp only at h1 h2
     by_cases hik : i = k
     · subst hik; simp only [upd_same, Option.some.injEq] at h1; subst h1
-      cases kind <;> simp [spawnThread] at c1
+      simp [hnc] at c1
     · rw [upd_other _ _ _ hik] at h1
       by_cases hjk : j = k
       · subst hjk; simp only [upd_same, Option.some.injEq] at h2; subst h2
-        cases kind <;> simp [spawnThread] at c2
+        simp [hnc] at c2
       · rw [upd_other _ _ _ hjk] at h2
         exact hi.distinct i j ti tj v hij h1 h2 c1 c2
 
